@@ -329,6 +329,52 @@ def production_block(rng):
     return body, n, block, shorts, calls
 
 
+def timeout_probe(ctx):
+    """Outside the model: the path with a timeout configured.  A stream that
+    ends before the declared length, a controlled clock (1 ms per time()
+    call) and timeout=0.05: count the underlying reads of one readline."""
+    from poorwsgi import request
+    from poorwsgi.request import CachedInput
+    ticks = [0]
+
+    def clock():
+        ticks[0] += 1
+        return ticks[0] / 1000.0
+
+    real = request.time
+    request.time = clock
+    try:
+        for body, n, block, size in ((b"", 2, 1, -1), (b"ab", 4, 8, -1),
+                                     (b"ab\r\ncd", 9, 3, 5)):
+            stream = Stream(body, (), 100000)
+            reader = CachedInput(stream, n, block, timeout=0.05)
+            outcome, lines = "returned", []
+            try:
+                for _ in range(4):
+                    stream.begin()
+                    line = reader.readline(size)
+                    lines.append(line)
+                    if not line.endswith(b"\r\n"):
+                        break
+            except TimeoutError:
+                outcome = "TimeoutError"
+            except Spin:
+                outcome = "more than 100000 reads"
+            bound = (n if size < 0 else size) + 2
+            ctx.case(("timeout", body, n, block, size))
+            ctx.count("timeout probe: " + outcome)
+            if len(stream.log) > bound or outcome != "returned":
+                ctx.violation("timeout-busy-wait-on-early-eof", {
+                    "body": body.decode("latin-1"), "n": n, "block": block,
+                    "timeout": 0.05, "clock": "1 ms per time() call",
+                    "call": "readline(%d)" % size, "outcome": outcome,
+                    "lines_before": [x.decode("latin-1") for x in lines],
+                    "underlying_reads_in_call": len(stream.log),
+                    "bound": bound})
+    finally:
+        request.time = real
+
+
 def run(ctx):
     ctx.check_obligations()
     quick = ctx.quick
@@ -407,6 +453,7 @@ def run(ctx):
         ctx.case(("long", body, n, block, shorts, calls), True)
 
     ctx.correspondence("reader", IMPORTS, cases, describe)
+    timeout_probe(ctx)
 
     # ---------------- verdict of the monitor
     seen_keys = {}
